@@ -265,9 +265,12 @@ def gen_cases(rng, n):
         yield c
     for i in range(max(0, n - len(out))):
         if i % 5 == 4:
-            yield gen_json_case(rng)
+            c = gen_json_case(rng)
         else:
-            yield gen_line_case(rng, malformed=(rng.random() < 0.12))
+            c = gen_line_case(rng, malformed=(rng.random() < 0.12))
+        if rng.random() < 0.3:
+            c["multi"] = True
+        yield c
 
 
 # ------------------------------------------------------------------ implementation
@@ -308,7 +311,17 @@ def run_impl(case):
                         fmt.format(_record("warm up", d, 12345.0))
                     except Exception:
                         pass
-            out = fmt.format(_record(case["name"], data, case["created"]))
+            rec = _record(case["name"], data, case["created"])
+            if case.get("multi"):
+                # one record, several outputs: the other handlers of the logger (a second line-protocol output
+                # with the same settings, a JSON output) format the very same record object first
+                from cobald.monitor.format_json import JsonFormatter
+                for other in (lambda: LineProtocolFormatter(tags=targ, resolution=case["res"]), JsonFormatter):
+                    try:
+                        other().format(rec)
+                    except Exception:
+                        pass
+            out = fmt.format(rec)
         except Exception as e:
             return {"raised": _exc(e)}
         if not isinstance(out, str):
@@ -323,6 +336,12 @@ def run_impl(case):
             except Exception:
                 pass
         rec = _record(case["name"], dict(case["data"]), case["created"])
+        if case.get("multi"):
+            from cobald.monitor.format_line import LineProtocolFormatter
+            try:
+                LineProtocolFormatter(tags=[k for k in case["data"] if isinstance(k, str)][:2]).format(rec)
+            except Exception:
+                pass
         out = fmt.format(rec)
     except Exception as e:
         return {"raised": _exc(e)}
